@@ -590,6 +590,24 @@ func c14Options(c *cx) {
 					keyLit = f.Norm(d.RHS, &d.At)
 				}
 			}
+			if kv := rootLocal(f, mu.Key); kv != nil {
+				// the key that was tested for duplicates is the key stored: no
+				// (field) write to the key variable after it was built
+				mod := ""
+				for _, w := range f.Writes() {
+					if rootLocal(f, w.LHS) != kv {
+						continue
+					}
+					if _, isID := ast.Unparen(w.LHS).(*ast.Ident); isID && w.Tok == token.DEFINE {
+						continue
+					}
+					wp, _ := g.Where(w.Stmt)
+					if g.Reachable(g.After(wp), pt, nil, nil) {
+						mod = "the key is modified at " + c.p.Pos(w.Stmt.Pos()) + " before it is stored: the duplicate test and the stored key can disagree"
+					}
+				}
+				c.r.Check(id, f, "key unchanged between duplicate test and store", "K: the key tested for duplicates is the key stored", mu.Node.Pos(), mod == "", mod)
+			}
 			c.domAny(id, f, mu.Node, "registration refuses nil handlers", []string{"!eq(outer.p2,nil)", "!eq(outer.p1,nil)"})
 			c.dom(id, f, mu.Node, "registration refuses duplicates", []string{"!commaok(p0." + cls[strings.LastIndex(cls, ".")+1:] + "[" + key + "])"})
 			if t.kind != "" {
